@@ -27,6 +27,7 @@ import Nuts.Model.Sparse
 import Nuts.Model.Tx
 import NutsProofs.Lemmas.Assoc
 import NutsProofs.Lemmas.Bytes
+import NutsProofs.Lemmas.SparseGet
 namespace NutsProofs.C02
 open Nuts Nuts.Model Nuts.Model.DB Nuts.Model.Sparse NutsProofs
 
@@ -156,5 +157,67 @@ theorem C02_witness_range_miss :
 
 theorem treeInsert_sorted (s : SState) (k : Bytes) (i : Idx) (h : NutsProofs.Sorted s.active) : NutsProofs.Sorted (treeInsert s k i).active :=
   NutsProofs.upsert_sorted _ _ _ h
+
+/-! ### `Get` along every history -/
+
+open NutsProofs.SparseGet in
+/-- histories: write transactions of key/value records (one id per transaction, no empty key) whose `Commit`
+returned success, from a fresh sparse-mode database -/
+def SOpsOk : SState → List (List Rec) → Prop
+  | _, [] => True
+  | s, t :: rest => t ≠ [] ∧ (∃ tid, KVTx tid t) ∧ (Sparse.commit s t).2 = .ok () ∧ SOpsOk (Sparse.commit s t).1 rest
+
+open NutsProofs.SparseGet in
+theorem good_history : ∀ (ops : List (List Rec)) (s : SState), Good s → SOpsOk s ops →
+    Good (ops.foldl (fun s t => (Sparse.commit s t).1) s) := by
+  intro ops
+  induction ops with
+  | nil => intro s h _; exact h
+  | cons t rest ih =>
+    intro s h hok
+    obtain ⟨hne, ⟨tid, htx⟩, hc, hrest⟩ := hok
+    exact ih _ (commit_inv s t tid h hne htx hc).1 hrest
+
+open NutsProofs.SparseGet in
+/-- **C02, `Get`, every history.** Take any sequence of successfully committed key/value transactions on a
+fresh sparse-mode database — any number of records per transaction, any segment size, rotations wherever they
+fall (inside a transaction too). Then `Get(bucket, key)` returns the **latest record written under the
+composite key `bucket ++ key`** — searching the active tree, then the sealed segments newest first through
+their key ranges — when that record is live at `now`, and "not found" when there is none or it is a tombstone
+or has expired. Spans, key ranges, per-segment transaction-id sets and the read-back from the data file are all
+inside the theorem; the composite key is the exact content of finding D-SPARSE-CONCAT: for databases in which
+no two (bucket, key) pairs concatenate to the same bytes this *is* the ordered map with TTL. -/
+theorem C02_get_is_latest_of_composite_key (seg : Nat) (ops : List (List Rec))
+    (hok : SOpsOk (Sparse.openDB seg [] [] []).1 ops) (b k : Bytes) (now : Nat) :
+    let s := ops.foldl (fun s t => (Sparse.commit s t).1) (Sparse.openDB seg [] [] []).1
+    Sparse.get s b k now = match latestFile s.files.reverse (b ++ k) with
+      | some r => judged r now
+      | none => .err := by
+  intro s
+  exact get_spec s (good_history ops _ (good_init seg) hok).1 b k now
+
+/-- a history that rotates three times (100-byte segments), overwrites a key across segments and deletes one -/
+def wHist : List (List Rec) :=
+  [[{ (mkRec [97] [107, 49] [120] flagSet dsKV) with txid := 1 }],
+   [{ (mkRec [97] [107, 50] [120] flagSet dsKV) with txid := 2 }, { (mkRec [97] [107, 51] [120] flagSet dsKV) with txid := 2 }],
+   [{ (mkRec [97] [107, 49] [121] flagSet dsKV) with txid := 3 }, { (mkRec [97] [107, 52] [120] flagSet dsKV) with txid := 3 }],
+   [{ (mkRec [97] [107, 50] [] flagDelete dsKV) with txid := 4 }, { (mkRec [97] [107, 53] [120] flagSet dsKV) with txid := 4 }],
+   [{ (mkRec [97] [107, 54] [120] flagSet dsKV) with txid := 5 }]]
+
+open NutsProofs.SparseGet in
+/-- non-vacuity: the history above meets the hypotheses, seals three segments (100-byte segments, two records each; transactions span rotations), and `Get` answers across them -/
+theorem C02_witness_history :
+    SOpsOk (Sparse.openDB 100 [] [] []).1 wHist ∧
+    ((wHist.foldl (fun s t => (Sparse.commit s t).1) (Sparse.openDB 100 [] [] []).1).sealed.map (·.fid)) = [0, 1, 2] ∧
+    (Sparse.get (wHist.foldl (fun s t => (Sparse.commit s t).1) (Sparse.openDB 100 [] [] []).1) [97] [107, 49] 0).map
+      (fun o => o.map (·.value)) = .ok (some [121]) ∧
+    Sparse.get (wHist.foldl (fun s t => (Sparse.commit s t).1) (Sparse.openDB 100 [] [] []).1) [97] [107, 50] 0 = .err := by
+  refine ⟨?_, by decide +kernel, by decide +kernel, by decide +kernel⟩
+  refine ⟨by simp [wHist], ⟨1, ?_⟩, by decide +kernel, by simp [wHist], ⟨2, ?_⟩, by decide +kernel, by simp [wHist], ⟨3, ?_⟩, by decide +kernel,
+    by simp [wHist], ⟨4, ?_⟩, by decide +kernel, by simp [wHist], ⟨5, ?_⟩, by decide +kernel, trivial⟩
+  all_goals
+    intro r hr
+    simp only [List.mem_cons, List.mem_nil_iff, or_false] at hr
+    rcases hr with rfl | rfl <;> exact ⟨rfl, by decide⟩
 
 end NutsProofs.C02
